@@ -61,3 +61,15 @@ CLAIMED["C33"] = _simple(["SigBlock", "SigBlockMC", "SigBlock_Trace"],
     "SigBlock_Trace, which decodes the written bytes with the TLA+ reader.",
     "Trusted: TLC, the zip container from Python's zipfile with the block spliced in before the central directory. Well-formed blocks only (malformed ones belong to C35); numbers < 2^31.",
     "TLA+ codec + lazy-loading query model checked with TLC (incl. expected counterexamples of implementation-shaped variants); histories replayed on real objects; answers validated by a TLA+ trace spec", "4/C33")
+CLAIMED["C32"] = _simple(["V1Verify", "V1VerifyMC", "V1Verify_Trace"],
+    "V1Verify.tla models a v1 signature block with abstract cryptography (a signature is the pair of signing key and signed message; certificates [issuer, serial, key]; signer infos with optional signed "
+    "attributes) and get_certificate_der as a step machine (next signer info, find the referenced certificate, check the attributes against the .SF digest, verify the signature); TLC checks on every block "
+    "of the universe (10 single alterations of the signer info, altered .SF, four certificate bags incl. a substituted certificate with the same issuer and serial, minSdk below / from 24, one or two signer "
+    "infos) that the reported certificate verifies the signature file (ReportedVerifies), that the procedure terminates, and that two weakened variants (digest attribute not compared, any certificate used) "
+    "yield counterexamples. Every enumerated block is realised with real RSA-2048 / EC P-256 / DSA-2048 keys, X.509 certificates and PKCS#7 structures inside a generated APK; what "
+    "get_certificate_der / get_certificates_v1 report is validated by V1Verify_Trace against the property (Sound), together with single-byte alterations of the .SF and of the signature value at every "
+    "(quick: 10 sampled) position and random multi-signer blocks.",
+    "Trusted: TLC, `cryptography` and asn1crypto as the means to produce signatures and structures; the abstraction (which signature verifies under which certificate over which message) is cross-checked "
+    "for every block by direct verification, a disagreement is a machinery failure. An exception escaping the call counts as nothing reported.",
+    "TLA+ step machine of the verification procedure over abstract cryptography, model-checked with TLC (safety, termination, counterexamples of weakened variants); blocks realised with real keys and "
+    "replayed; reports validated by a TLA+ trace spec", "4/C32")
